@@ -17,6 +17,7 @@ func init() {
 			"R19.2 validation and serving read the same tables: the Register* functions are the only writers of those tables besides the constructor/JSON defaults, they normalise media types (ToLower) and methods (ToUpper) exactly as the readers do, and the request-time tables of a route are built from those readers; each alternative's scheme list is a fresh slice (alternatives never share backing storage); " +
 			"R19.3 the request-time failure sites for a missing registration are exactly the tabled ones (consumer miss x2 -> 500, producer miss x3 and produce error x2 -> panic in Respond), so a new one is reported. " +
 			"R19.2 also: the per-route consumer/producer tables are built from the route's own consumes/produces lists, and WithoutJSONDefaults undoes exactly what WithJSONDefaults installs. " +
+			"R19.2 also: the per-method handler table is keyed by the verbatim path the registry enumerates. " +
 			"NOT decided: set arithmetic on concrete inputs; the analyzer's requirement lists (go-openapi/analysis).",
 		Run: runC19,
 	})
